@@ -146,10 +146,10 @@ def grep_forbidden():
     return hits
 
 
-def audit(prop, module, theorems, timeout=600):
+def audit(prop, module, theorems, timeout=600, deps=()):
     """`#print axioms` for every property theorem.  Returns dict name -> list of axioms, or
     name -> None when the theorem does not exist / does not check."""
-    src = "import %s\n" % module + "".join("#print axioms %s\n" % t for t in theorems)
+    src = "".join("import %s\n" % m for m in [module] + list(deps)) + "".join("#print axioms %s\n" % t for t in theorems)
     tmp = os.path.join(LEAN_DIR, ".audit_%s_%d.lean" % (prop, os.getpid()))
     with open(tmp, "w") as f:
         f.write(src)
